@@ -193,7 +193,10 @@ func (s *scOps) runOp(w *World, name string, underTest bool) {
 	case "OpenStream":
 		deadline = 60 * time.Second
 		f = func() string {
-			s.obs = couchbase.NewObserver(c, 0, ^uint64(0), func(models.ListenerArgs) {}, func(models.DcpStreamEndContext) {}, map[uint32]string{}, tracing.NewTracerComponent())
+			s.obs = couchbase.NewObserver(c, 0, ^uint64(0), func(models.ListenerArgs) {
+				// the stream is live on the client side: what the node sends on it reaches the listener
+				w.jl(&journal.Ev{K: journal.KNote, M: m.id, Vb: 0, S: "op-stream-event-at-listener"})
+			}, func(models.DcpStreamEndContext) {}, map[uint32]string{}, tracing.NewTracerComponent())
 			off := &models.Offset{SnapshotMarker: &models.SnapshotMarker{}, LatestSeqNo: ^uint64(0)}
 			return res(m.client.OpenStream(0, map[uint32]string{}, off, s.obs), "")
 		}
